@@ -103,6 +103,7 @@ def cases(tier):
     for i in range(0, len(CONSUMERS) * len(SHAPES), 60 * 40):
         yield {"k": "long", "start": i}
     yield {"k": "faults"}
+    yield {"k": "cli"}
 
 
 class _Sink(io.TextIOBase):
@@ -265,6 +266,46 @@ def check(case, r, tier):
             chunk = allp[start:start + 60]
             text = "\n".join(c.replace("§", s) for c, s in chunk) + "\n"
             judge(text, r, ("long", start), True, tree=TREE)
+        return
+    if k == "cli":
+        # the output stage of the command line belongs to "assembling" too: none of these may reach the internal-error path
+        import shutil
+        big = "\t.blkb 177777\n\t.blkb 177777\n\tnop\n"
+        small = "start:\tmov #start, r0\n"
+        runs = []
+        for out_args, directives in ((["-o", "x.bin"], ""), (["-o", "x.raw"], ""), ([], "make_bin\n"), ([], "make_wav\n"), ([], "make_turbo_wav\n"),
+                                     ([], "make_raw\nmake_bin\n"), (["--implicit-bin"], ""), (["-o", "-"], ""), (["-o", "-.bin"], ""), (["-o", "nodir/x.bin"], ""),
+                                     ([], "make_bin \"nodir/x.bin\"\n"), ([], "make_wav \"t.wav\", \"\u03b1\"\n"), ([], "make_wav \"\u0451.wav\"\n"),
+                                     ([], "make_wav \"t.wav\", \"seventeen letters!\"\n"), ([], "make_bin \"\"\n"), ([], "make_raw \".\"\n"), ([], "make_bin \"~speaker\"\n")):
+            for src in (small, big):
+                for extra in ([], ["--lst"], ["--report-format", "bare"]):
+                    runs.append((["m.mac"] + out_args + extra, {"m.mac": src + directives}))
+        runs.append((["missing.mac"], {}))
+        runs.append((["m.mac", "--charset", "no-such-charset"], {"m.mac": small}))
+        runs.append((["m.mac", "--charset", "utf-16"], {"m.mac": small + "\t.ascii \"ab\"\n"}))
+        runs.append((["bad.mac"], {"bad.mac": b"\xff\xfe\x00nop\n"}))
+        runs.append((["d"], {"d/keep": ""}))
+        runs.append((["m.mac", "m.mac"], {"m.mac": small}))
+        runs.append((["m.mac", "-Wnonsense", "-Wno-nonsense"], {"m.mac": small}))
+        runs.append((["-"], {}))
+        for argv, tree in runs:
+            co = driver.cli(argv, tree, keep=True)
+            try:
+                r.states += 1
+                r.trans += 1
+                key = ("cli", tuple(argv), tuple(sorted((k2, len(v)) for k2, v in tree.items())))
+                bad = co.internal_error or co.exit not in (0, 1, 2)
+                r.ran("cli-internal-error" if bad else "cli-exit-%s" % co.exit, key=key, nontrivial=True)
+                if bad:
+                    m = re.search(r"(\w+(?:Error|Exception))[^\n]*\s*$", co.stderr.strip())
+                    site = re.findall(r'File "[^"]*/pdpy11/([^"]+)", line \d+, in (\w+)', co.stderr)
+                    sig = "cli:internal-error:%s@%s" % (m.group(1) if m else "?", ":".join(site[-1]) if site else "?")
+                    r.violation(sig, "the command line ended in the internal-compiler-error path", {"k": "cli-run", "argv": argv, "tree": {k2: (v if isinstance(v, str) else v.hex()) for k2, v in tree.items()}},
+                                "exit 0 or 1 with diagnostics", co.stderr[-300:])
+            finally:
+                shutil.rmtree(co.root, ignore_errors=True)
+        return
+    if k == "cli-run":
         return
     if k == "faults":
         for e in faults.E:
